@@ -3,6 +3,7 @@ package main
 import (
 	"fmt"
 	"go/types"
+	"strings"
 
 	"golang.org/x/tools/go/ssa"
 )
@@ -22,7 +23,9 @@ func (f *Frame) bindLoopLocals(con *Contract, li *loopInfo, phiVals map[*ssa.Phi
 			if !ok {
 				break
 			}
-			if phi.Comment == name && types.Identical(phi.Type(), pt) {
+			// go/ssa names the hidden counter of a range-over-int loop "rangeint.iter": written
+			// rangeint_iter in a contract
+			if strings.ReplaceAll(phi.Comment, ".", "_") == name && types.Identical(phi.Type(), pt) {
 				if pv, ok := phiVals[phi]; ok {
 					found = pv
 				} else {
